@@ -668,7 +668,7 @@ for nmax, tier in ((2, "never"), (3, "never")):   # does not finish within 30 mi
       checks=["--bounds-check", "--pointer-check"],
       bound_note="at most %d input cells (every allocation may fail; all error exits reachable at that size except the pentagon-duplicate one)" % nmax)
 
-J(name="c05.gridDiskDistancesUnsafe", props=["C05", "C12"], harness="c12.c", entry="h_gridDiskDistancesUnsafe", enforce=["gridDiskDistancesUnsafe"],
+J(name="c05.gridDiskDistancesUnsafe", props=["C05"], harness="c12.c", entry="h_gridDiskDistancesUnsafe", enforce=["gridDiskDistancesUnsafe"],
   replace=["h3NeighborRotations/h3NeighborRotations_frame", "isPentagon"], checks=["--no-standard-checks", "--signed-overflow-check"], timeout=1500,
   bound_note="k <= 30000 (covers the index range up to and beyond 2^31); arithmetic-overflow and error-code obligations only",
   exclude=[(r"gridDiskDistancesUnsafe\.assigns\.\d+ .*(out|distances)\[", "write bound idx < maxGridDiskSize(k): a quadratic fact, not decided"),
